@@ -75,8 +75,16 @@ def mutate(rng, payloads):
 
 def hostile_tags(rng):
     """small inputs with hostile type tags: deep nesting, huge counts of zero-size elements, bad enums"""
-    k = rng.randrange(8)
-    if k == 7:
+    k = rng.randrange(10)
+    if k >= 8:
+        # unterminated / degenerate struct, enum and bracket intros (empty names, names without field lists, lone openers),
+        # alone, nested in every bracket kind, and as the element of a sequence of more than 32 elements
+        core = rng.choice([b'{x', b'{', b'{`', b"{`a'", b'{}', b'{}x', b'{A', b'{A`', b"{A`f'", b"{A`f'{", b'{{', b'{x{x', b'/', b'/i', b'/i`', b"/i`E'", b'<', b'(', b'[',
+                           b'{x}', b"{x`'", b'{ ', b'{\\', b"{'", b'{`}', b"{A`f'{A", b"{A`f'{A}}", b"{A`f'{B}}"])
+        wrap = rng.choice([b'%s', b'(%s)', b'<%s>', b'[%s', b'(i%s)', b'<0%s>', b"{S`f'%s}", b'[(%s)'])
+        tag = wrap % core
+        args = G.u32(rng.choice([0, 1, 33, 40])) + bytes(rng.choice([0, 1, 2]) for _ in range(rng.choice([0, 8, 64])))
+    elif k == 7:
         # nesting around the recursion limit below a sequence of more than 32 elements: the limit is consumed by `singular` first
         d = rng.choice([1000, 2040, 2044, 2045, 2046, 2047, 2048, 2049, 2050, 2060])
         op = rng.choice([b'(', b'[', b'<', b'{'])
@@ -103,7 +111,7 @@ def hostile_tags(rng):
         tag = b"{A`x'{B`y'i}`z'{B}}" if rng.random() < 0.5 else b"{R`v'i`n'<0{R}>}"
         args = G.u32(1) + bytes([1]) + G.u32(2) + bytes([rng.choice([0, 1])]) + G.u32(3) + bytes([0])
     else:
-        tag = bytes(rng.choice(b'[(<{/\\`\'0)>}iIcy') for _ in range(rng.randrange(1, 30)))
+        tag = bytes(rng.choice(b'[(<{/\\`\'0)>}iIcyxA ') for _ in range(rng.randrange(1, 30)))
         args = bytes(rng.randrange(256) for _ in range(rng.randrange(0, 20)))
     return [G.cs_payload(5, rng.choice([0, 10 ** 9, 1 << 63]), rng.choice([0, 1 << 63, (1 << 64) - 1]), rng.choice([0, 0x80000000]), b'T'),
             G.source_payload(1, 128, b'c', b'f', b'x', 1, b'{} {}', tag), G.event_payload(1, rng.randrange(1 << 64), args)]
